@@ -76,7 +76,7 @@ class Config:
 
 
 def subject_source(sid, decl, cfg, derive_use="use ::enum_tools::EnumTools;", bounds=None, args=None,
-                   sweep_full=True, prelude="", inner_attrs="", scope_items="", phases=None, m_external=None):
+                   sweep_full=True, sweep32=False, prelude="", inner_attrs="", scope_items="", phases=None, m_external=None):
     """Rust text of one subject module `pub mod <sid>` exposing `pub static SUBJECT`."""
     b = dict(x1_depth=3, x2_extra=2, x2_cap=8, range_x1_depth=2, range_x2_extra=2,
              range_pair_step=0, consumers=True, light=False)
@@ -148,8 +148,8 @@ def subject_source(sid, decl, cfg, derive_use="use ::enum_tools::EnumTools;", bo
     L.append("  static ARGS: [i128; %d] = [%s];" % (len(args), ", ".join("i128::MIN" if a == -(1 << 127) else str(a) for a in args)))
     bits, signed = REPRS[R]
     L.append("  pub static SUBJECT: ::driver::Subject = ::driver::Subject {")
-    L.append("    id: %s, repr: %s, bits: %d, signed: %s, decl: &DECL, disc, args: &ARGS, sweep_full: %s," % (
-        rust_str(sid), rust_str(R), bits, "true" if signed else "false", "true" if sweep_full else "false"))
+    L.append("    id: %s, repr: %s, bits: %d, signed: %s, decl: &DECL, disc, args: &ARGS, sweep_full: %s, sweep32: %s," % (
+        rust_str(sid), rust_str(R), bits, "true" if signed else "false", "true" if sweep_full else "false", "true" if sweep32 else "false"))
     for f in fields:
         L.append("    %s," % f)
     L.append("    x1_depth: %d, x2_extra: %d, x2_cap: %d, range_x1_depth: %d, range_x2_extra: %d, range_pair_step: %d, consumers: %s," % (
@@ -244,7 +244,7 @@ def _batches(subjects, nb):
     return [sorted(g) for g in groups if g]
 
 
-def build_workspace(tag, subjects, nb=None, extra_deps="", derive_dep=None, extra_crates=None):
+def build_workspace(tag, subjects, nb=None, extra_deps="", derive_dep=None, extra_crates=None, opt=False):
     """Write the workspace for `subjects` under work/<tag>/ and build it. Returns
     (wsdir, [(batch_name, [subject indices], binary path)], build_failures) where build_failures is a
     list of (batch name, stderr) for batches that did not compile."""
@@ -278,18 +278,22 @@ def build_workspace(tag, subjects, nb=None, extra_deps="", derive_dep=None, extr
         p = os.path.join(ws, d)
         if os.path.isdir(p) and d.startswith(prefix + "_b") and d not in names:
             shutil.rmtree(p)
-    write_if_changed(os.path.join(ws, "Cargo.toml"), CARGO_WS % ", ".join('"%s"' % n for n in names))
+    wstoml = CARGO_WS % ", ".join('"%s"' % n for n in names)
+    if opt:
+        # optimised subjects (full 32-bit sweeps): overflow checks and debug assertions stay on
+        wstoml = wstoml.replace("opt-level = 0", "opt-level = 3")
+    write_if_changed(os.path.join(ws, "Cargo.toml"), wstoml)
     lock = os.path.join(ws, "Cargo.lock")
     if not os.path.exists(lock):
         write_if_changed(lock, repo_lock())
-    tdir = os.path.join(TARGET, "e3")
+    tdir = os.path.join(TARGET, "e3opt" if opt else "e3")
     p = run(["cargo", "build", "--offline", "--workspace", "--keep-going", "--target-dir", tdir, "--message-format=short"], cwd=ws)
     failures = []
     out = []
     stderr = p.stderr.decode(errors="replace")
     for bi, g in enumerate(groups):
         bname = names[bi]
-        binp = os.path.join(tdir, "debug", bname)
+        binp = os.path.join(tdir, "debug", bname)   # (profile dev, possibly with opt-level 3)
         out.append((bname, g, binp))
     if p.returncode != 0:
         failed = set()
